@@ -54,10 +54,25 @@ def guard_atomic(ctx, rep, rule):
                 tg = n.targets if isinstance(n, ast.Assign) else [n.target]
                 for t in tg:
                     if isinstance(t, ast.Attribute) and t.attr == g:
-                        ok = f is r.BROADCAST or f.name == '__init__'
+                        ok = f is r.BROADCAST or f.name == '__init__' or _only_called_by(ctx, f, r.BROADCAST)
                         rep.check(ok, rule, "%s:%d writer of the once-guard" % (f.module.relpath, n.lineno),
                                   f.qualname, "`%s`" % src(n),
                                   "the once-guard is reset outside the constructor: shutdown can be sent twice")
+
+
+def _only_called_by(ctx, f, owner):
+    """`f` is a private method whose every mention in the package is a call on self inside `owner`"""
+    if f.cls is None or not f.name.startswith('_') or f.name.startswith('__'):
+        return False
+    n_in = 0
+    for g in ctx.prog.all_functions():
+        for n in walk_local(g.node):
+            if isinstance(n, ast.Attribute) and n.attr == f.name:
+                if g is owner and isinstance(n.value, ast.Name) and n.value.id == 'self':
+                    n_in += 1
+                else:
+                    return False
+    return n_in > 0
 
 
 def broadcast_total(ctx, rep, rule):
@@ -279,7 +294,8 @@ def single_cancel_model(ctx, rep, rule):
         tidied = {e.data['coll'] for e in an.events('TIDY', 'TIDY_PARTIAL')}
         for e in an.events('CANCEL_ALL'):
             seen.setdefault(id(e.node), []).append(e.data['coll'] in tidied)
-        for e in an.events('CANCEL1'):
+        for e in an.events('CANCEL1', summary=True):
+            # (also when the loop around it was read as a fold: `if task.cancel(): nb += 1`)
             seen.setdefault(id(e.node), [])
     for f, n in sites:
         # the loop node or the call itself was seen by an exploration
@@ -327,6 +343,16 @@ def user_shutdown_unconditional(ctx, rep, rule):
                 return alias[e.id]
             return None
         aws = [a for a in walk_local(f.node) if isinstance(a, ast.Await) and attr_of(a.value)]
+        # the stored coroutine put in a task of its own (shielded, or scheduled): cancelling the handler does not stop it
+        from ..index import dotted as _dotted
+        for c in walk_local(f.node):
+            if isinstance(c, ast.Call) and (_dotted(c.func) or '').split('.')[-1] in ('shield', 'ensure_future', 'create_task') \
+                    and any(attr_of(a) for a in c.args):
+                n += 1
+                rep.fail(rule, "%s:%d user shutdown coroutine awaited as it is" % (f.module.relpath, c.lineno), f.qualname,
+                         "`%s` runs the user's shutdown coroutine in a task of its own" % src(c)[:80],
+                         "when shutdown_timeout expires the handler is cancelled but that task is not: the user's "
+                         "clean-up goes on after the run is over, nobody awaits it")
         if not aws:
             continue
         for a in aws:
@@ -406,3 +432,207 @@ def cancellation_propagates(ctx, rep, rule):
                           "a cancelled activation is left by %s" % (kind,),
                           "the cancellation is replaced by another exception", trace(st))
     rep.need(rule, n, 3, "exits reached after a cancellation")
+
+
+# ------------------------------------------------------------------ handler tasks carry no job
+def _demanding_params(ctx, attr):
+    """{(qualname, param)}: parameters whose value - or whose elements - the function reads `.<attr>` from
+    (the back-pointer that only the task creator of the run stores), directly or through another such function"""
+    prog = ctx.prog
+    funcs = list(prog.all_functions())
+    derived = {}          # qualname -> {name: param it stands for}
+
+    def names_of(f):
+        d = {p: p for p in f.params}
+        changed = True
+        while changed:
+            changed = False
+            for n in walk_local(f.node):
+                tgt = it = None
+                if isinstance(n, (ast.For, ast.AsyncFor)):
+                    tgt, it = n.target, n.iter
+                elif isinstance(n, ast.comprehension):
+                    tgt, it = n.target, n.iter
+                elif isinstance(n, ast.Assign) and len(n.targets) == 1:
+                    tgt, it = n.targets[0], n.value
+                if tgt is not None and it is not None:
+                    srcs = {m.id for m in ast.walk(it) if isinstance(m, ast.Name) and m.id in d}
+                    # (`job = job._job` makes `job` the job: not the task any more - but it was one before;
+                    #  `done, pending = await asyncio.wait(tasks)`: both are made of what `tasks` holds)
+                    for tn in ([tgt] if isinstance(tgt, ast.Name) else
+                               [x for x in ast.walk(tgt) if isinstance(x, ast.Name)] if isinstance(tgt, (ast.Tuple, ast.List))
+                               else []):
+                        if srcs and tn.id not in d:
+                            d[tn.id] = d[sorted(srcs)[0]]
+                            changed = True
+        return d
+
+    def guarded(f, node, name):
+        # a read under `hasattr(x, '<attr>')` is no demand
+        for n in walk_local(f.node):
+            if isinstance(n, (ast.If, ast.IfExp)) and any(m is node for b in ([n.body] if isinstance(n, ast.IfExp)
+                                                                              else n.body) for m in ast.walk(b)):
+                for c in ast.walk(n.test):
+                    if isinstance(c, ast.Call) and isinstance(c.func, ast.Name) and c.func.id == 'hasattr' \
+                            and len(c.args) == 2 and isinstance(c.args[1], ast.Constant) and c.args[1].value == attr:
+                        return True
+        return False
+
+    dem = {}
+    for f in funcs:
+        derived[f.qualname] = names_of(f)
+        for n in walk_local(f.node):
+            if isinstance(n, ast.Attribute) and n.attr == attr and isinstance(n.ctx, ast.Load) \
+                    and isinstance(n.value, ast.Name) and n.value.id in derived[f.qualname] \
+                    and not guarded(f, n, n.value.id):
+                dem.setdefault((f.qualname, derived[f.qualname][n.value.id]), n)
+    changed = True
+    while changed:
+        changed = False
+        for f in funcs:
+            d = derived[f.qualname]
+            for n in walk_local(f.node):
+                if not isinstance(n, ast.Call):
+                    continue
+                g = _callee(ctx, f, n)
+                if g is None:
+                    continue
+                for prm, a in _bound_args(g, n):
+                    if isinstance(a, ast.Name) and a.id in d and (g.qualname, prm) in dem \
+                            and (f.qualname, d[a.id]) not in dem:
+                        dem[(f.qualname, d[a.id])] = n
+                        changed = True
+    return dem
+
+
+def _callee(ctx, f, call):
+    fn = call.func
+    if isinstance(fn, ast.Attribute) and isinstance(fn.value, ast.Name) and fn.value.id == 'self' and f.cls is not None:
+        return ctx.prog.supplier(f.cls, fn.attr)
+    if isinstance(fn, ast.Name):
+        for g in ctx.prog.all_functions():
+            if g.cls is None and g.parent is None and g.name == fn.id and g.module == f.module:
+                return g
+    return None
+
+
+def _bound_args(g, call):
+    params = list(g.params)
+    if g.cls is not None and params and params[0] in ('self', 'cls'):
+        params = params[1:]
+    out = []
+    for i, a in enumerate(call.args):
+        if isinstance(a, ast.Starred):
+            break
+        if i < len(params):
+            out.append((params[i], a))
+    for k in call.keywords:
+        if k.arg is not None and k.arg in params:
+            out.append((k.arg, k.value))
+    return out
+
+
+def handler_tasks_carry_no_job(ctx, rep, rule):
+    """the tasks the broadcast makes for the shutdown handlers are not job tasks: nothing stored the back-pointer
+    `<task>.<attr>` on them (only the task creator of the run does).  Handing them to code that reads it raises
+    AttributeError - before the stragglers are cancelled, when it sits on the late-handler path"""
+    r = ctx.roles
+    attr = r.task_job_attr
+    if attr is None:
+        rep.error(rule, "back-pointer attribute of the job tasks not resolved")
+        return
+    f = r.BROADCAST
+    fn = f.qualname
+    from ..effects import TASK_MAKERS
+    from ..index import dotted
+    # does the broadcast store the back-pointer on what it creates?  then its tasks are as good as job tasks
+    stores = [n for n in walk_local(f.node) if isinstance(n, ast.Attribute) and n.attr == attr
+              and isinstance(n.ctx, ast.Store)]
+    # a first phase of the broadcast living in a private helper that returns the tasks it made (`tasks = self._begin()`)
+    maker_helpers = set()
+    for n in walk_local(f.node):
+        if isinstance(n, ast.Call):
+            g = _callee(ctx, f, n)
+            if g is not None and g is not f and g.name.startswith('_') and any(
+                    isinstance(m, ast.Call) and dotted(m.func) in TASK_MAKERS for m in walk_local(g.node)) and any(
+                    isinstance(rn, ast.Return) and rn.value is not None and not (
+                        isinstance(rn.value, ast.Constant) and rn.value.value is None) for rn in walk_local(g.node)):
+                maker_helpers.add(id(n))
+                stores += [m for m in walk_local(g.node) if isinstance(m, ast.Attribute) and m.attr == attr
+                           and isinstance(m.ctx, ast.Store)]
+
+    def makes(m):
+        return isinstance(m, ast.Call) and (dotted(m.func) in TASK_MAKERS or id(m) in maker_helpers)
+    hv = set()
+    makers = 0
+    changed = True
+    while changed:
+        changed = False
+        for n in walk_local(f.node):
+            tgts = val = None
+            if isinstance(n, ast.Assign):
+                tgts, val = n.targets, n.value
+            elif isinstance(n, ast.AnnAssign) and n.value is not None:
+                tgts, val = [n.target], n.value
+            elif isinstance(n, ast.AugAssign):
+                tgts, val = [n.target], n.value
+            if val is None:
+                continue
+            made = any(makes(m) for m in ast.walk(val))
+            flows = any(isinstance(m, ast.Name) and m.id in hv for m in ast.walk(val))
+            if made or flows:
+                for t in tgts:
+                    for m in ast.walk(t):
+                        if isinstance(m, ast.Name) and m.id not in hv:
+                            hv.add(m.id)
+                            changed = True
+        # `tasks.append(ensure_future(...))` / `tasks.add(...)`
+        for n in walk_local(f.node):
+            if isinstance(n, ast.Call) and isinstance(n.func, ast.Attribute) and n.func.attr in ('append', 'add', 'extend', 'update') \
+                    and isinstance(n.func.value, ast.Name) and n.func.value.id not in hv:
+                if any(makes(m) or
+                       (isinstance(m, ast.Name) and m.id in hv) for a in n.args for m in ast.walk(a)):
+                    hv.add(n.func.value.id)
+                    changed = True
+    makers = sum(1 for n in walk_local(f.node) if makes(n))
+    if not makers:
+        starts = [n for n in walk_local(f.node) if isinstance(n, ast.Call) and _callee(ctx, f, n) is r.start_fn]
+        if starts:
+            rep.check(True, rule, "%s handler tasks made by the task creator of the run" % fn, fn, "", "")
+            return
+        rep.error(rule, "no task creation found in the broadcast")
+        return
+    rep.need(rule, len(hv), 1, "variables of the broadcast that hold handler tasks")
+    if stores:
+        rep.error(rule, "the broadcast stores `%s` on its own tasks: this rule cannot decide this form" % attr)
+        return
+    dem = _demanding_params(ctx, attr)
+    sites = 0
+    for n in walk_local(f.node):
+        if isinstance(n, ast.Call):
+            g = _callee(ctx, f, n)
+            if g is None:
+                continue
+            for prm, a in _bound_args(g, n):
+                names = {m.id for m in ast.walk(a) if isinstance(m, ast.Name)} & hv
+                if not names:
+                    continue
+                sites += 1
+                bad = (g.qualname, prm) in dem
+                rep.check(not bad, rule, "%s:%d handler tasks given to %s(%s=)" % (f.module.relpath, n.lineno, g.qualname, prm),
+                          fn, "`%s`: %s reads `.%s` from what it is given%s" % (
+                              src(n)[:100], g.qualname, attr,
+                              " (line %d)" % dem[(g.qualname, prm)].lineno if bad else ""),
+                          "the shutdown handlers' tasks have no `%s`: AttributeError in the shutdown phase (with "
+                          "verbose feedback on), before the handlers still pending are cancelled - they run on "
+                          "beyond shutdown_timeout" % attr)
+        elif isinstance(n, ast.Attribute) and n.attr == attr and isinstance(n.ctx, ast.Load):
+            names = {m.id for m in ast.walk(n.value) if isinstance(m, ast.Name)} & hv
+            loopv = {m.target.id for m in walk_local(f.node)
+                     if isinstance(m, (ast.For, ast.comprehension)) and isinstance(m.target, ast.Name)
+                     and any(isinstance(x, ast.Name) and x.id in hv for x in ast.walk(m.iter))}
+            if names or (isinstance(n.value, ast.Name) and n.value.id in loopv):
+                rep.fail(rule, "%s:%d reads `.%s` from a handler task" % (f.module.relpath, n.lineno, attr), fn,
+                         "`%s`" % src(n), "the shutdown handlers' tasks have no `%s`: AttributeError in the "
+                         "shutdown phase" % attr)
+    rep.need(rule, sites, 1, "calls of the broadcast that pass handler tasks on")
